@@ -34,9 +34,8 @@ Check(e) ==
      ELSE IF e.status \notin {"OPTIMAL", "FEASIBLE"} THEN "Return.unexpected_status"
      ELSE IF Len(e.sols) = 0 THEN "Return.ok_without_selection"
      ELSE IF ~e.find_all THEN (IF Len(e.sols) # 1 THEN "Return.single_mode_with_many" ELSE "")
-     ELSE IF cut THEN (IF e.status # "FEASIBLE" THEN "FindAll.cut_off_not_flagged_feasible" ELSE "")
+     ELSE IF cut THEN ""              \* cut off by max_solutions: only validity; C07 does not fix the status label of a cut-off list
      ELSE IF sets # covers THEN "FindAll.cover_missing"
-     ELSE IF e.status # "OPTIMAL" THEN "FindAll.complete_list_not_flagged_optimal"
      ELSE ""
 \* a repeated identical call must give the identical answer
 SameAsEarlier(e) == \A j \in 1..(l - 1) :
